@@ -404,7 +404,8 @@ class RepeatMin(Expression):
 
         if not matched:
             state.restore()
-            return False
+            # No match at all satisfies a minimum of zero.
+            return self.number == 0
 
         match_count += 1
 
@@ -511,7 +512,8 @@ class RepeatMax(Expression):
 
         if not matched:
             state.restore()
-            return False
+            # No match at all satisfies a minimum of zero.
+            return True
 
         match_count += 1
 
@@ -610,7 +612,8 @@ class RepeatMinMax(Expression):
 
         if not matched:
             state.restore()
-            return False
+            # No match at all satisfies a minimum of zero.
+            return self.min == 0
 
         match_count += 1
 
